@@ -419,6 +419,58 @@ theorem solve_lu_correct (n : Nat) (A : Mat) (b : Vec) (h : (getrf n A).fail = f
   simp only [hpb, hσ] at this
   exact this
 
+/-- **`solve(A, b, indefinite_full_rank(), right)`** (`pivoting_lu_decomposition::solve(b, right)`:
+`trsv<upper,right>`, `trsv<unit_lower,right>`, `swap_rows_inverted(P, b)`): for every size and every matrix
+on which `getrf` does not throw, the returned vector satisfies `x A = b` exactly. -/
+theorem solve_lu_right_correct (n : Nat) (A : Mat) (b : Vec) (h : (getrf n A).fail = false) :
+    ∀ j, j < n → vecMul n (fun k => vget (luSolveRightArr n (getrf n A) b) k) A j = b j := by
+  have side : LUSide n n (getrf n A) := getrf_side n A n (Nat.le_refl n) h
+  have hfac := getrf_correct n A h
+  set s := getrf n A with hs
+  set F : Mat := fun i j => mget s.M i j with hF
+  have hreg1 : triSingular ⟨false, true⟩ n F = false := by simp [triSingular]
+  have hreg2 : triSingular ⟨true, false⟩ n F = false :=
+    (regular_iff_not_singular _ n F).mp (fun _ j hj => side.2 j hj)
+  set y : Vec := trsv ⟨true, false⟩ false n F b with hy
+  set z : Vec := trsv ⟨false, true⟩ false n F y with hz
+  have hyU := trsv_correct_right ⟨true, false⟩ n F b hreg2
+  have hzL := trsv_correct_right ⟨false, true⟩ n F y hreg1
+  intro j hj
+  have hx : ∀ i, i < n → vget (luSolveRightArr n s b) i = z (permInvOf s.P n i) := by
+    intro i hi
+    unfold luSolveRightArr
+    rw [vget_vecOf]; simp only [hi, if_true]; rfl
+  unfold vecMul
+  -- re-index the sum by the recorded row permutation
+  rw [← sum_permOf s.P n n (Nat.le_refl n) side.1
+        (fun k => vget (luSolveRightArr n s b) k * A k j)]
+  have h1 : sum n (fun i => vget (luSolveRightArr n s b) (permOf s.P n i) * A (permOf s.P n i) j)
+      = sum n (fun i => sum n (fun c => z i * triPart ⟨false, true⟩ F i c * triPart ⟨true, false⟩ F c j)) := by
+    apply sum_congr; intro i hi
+    have hlt : permOf s.P n i < n := by
+      have := permOf_lt s.P n n (Nat.le_refl n) side.1 i hi; exact this
+    rw [hx _ hlt, permInvOf_permOf, ← hfac i j hi hj]
+    unfold mul; rw [← sum_mul_left]
+    apply sum_congr; intro c _; ring
+  have h2 : sum n (fun c => sum n (fun i => z i * triPart ⟨false, true⟩ F i c * triPart ⟨true, false⟩ F c j))
+      = sum n (fun c => y c * triPart ⟨true, false⟩ F c j) := by
+    apply sum_congr; intro c hc
+    rw [sum_mul_right]
+    have := hzL c hc; unfold vecMul at this; rw [this]
+  rw [h1, sum_comm, h2]
+  have := hyU j hj; unfold vecMul at this; exact this
+
+/-- **`solve(A, b, symm_pos_def(), right)`**: the vector solve of a symmetric system is side-independent
+(`cholesky_decomposition::solve(b, system_tag<Left>)` has one body); `x A = b` follows from `A x = b`. -/
+theorem solve_spd_right_correct (r : Rat → Rat) (n : Nat) (A : Mat) (b : Vec) (hr : SqrtSpec r n A)
+    (h0 : potrfInfo false r n A = 0) (hsym : ∀ i j, i < n → j < n → A i j = A j i) :
+    ∀ j, j < n → vecMul n (fun k => vget (solveSpdArr r n A b) k) A j = b j := by
+  intro j hj
+  rw [← solve_spd_correct r n A b hr h0 hsym j hj]
+  unfold vecMul mulVec
+  apply sum_congr; intro k hk
+  rw [hsym k j hk hj]; ring
+
 /-! ## lazily consumed solve expressions (`solve.hpp`: `matrix_row_optimizer`, `matrix_vector_prod_optimizer`) -/
 
 /-- `unit_vector(n, i)` -/
